@@ -285,6 +285,15 @@ func (x *Exec) typeFacts() {
 				x.D.Axiom(fmt.Sprintf("(spec.NotAnError %d)", id))
 			}
 		}
+		if x.D.Has("f:hashable") {
+			if types.Comparable(t) {
+				if _, isI := types.Unalias(t).Underlying().(*types.Interface); !isI {
+					x.D.Axiom(fmt.Sprintf("(hashable %d)", id))
+				}
+			} else {
+				x.D.Axiom(fmt.Sprintf("(not (hashable %d))", id))
+			}
+		}
 		if x.D.Has("f:spec.EmptyStructType") {
 			if st, ok := types.Unalias(t).Underlying().(*types.Struct); ok && st.NumFields() == 0 {
 				x.D.Axiom(fmt.Sprintf("(spec.EmptyStructType %d)", id))
@@ -1684,6 +1693,10 @@ func (x *Exec) rangeNext(st *State, ins *ssa.Next) Value {
 	// update iterator register in frame (the Range instruction's register)
 	st.top().Regs[rng] = Value{Iter: &nit, Typ: rng.Type()}
 	kv := x.mk(k, mt.Key())
+	if kv.Sort == SIface {
+		// keys stored in a map are hashable by construction
+		st.Assume(Implies(ok, x.hashablePred(app("itag", k))))
+	}
 	vv := x.mk(Select(Select(val, it.MapRef), k), mt.Elem())
 	x.assumeTypeInvCond(st, kv, ok)
 	x.assumeTypeInvCond(st, vv, ok)
@@ -1695,7 +1708,7 @@ func (x *Exec) assumeBackground(st *State) {
 	for _, cf := range x.P.Files {
 		for _, c := range cf.Axioms {
 			env := &Env{x: x, st: st, old: st, vars: map[string]Value{}, cf: cf}
-			x.D.Axiom(x.evalBool(env, c.E, c))
+			x.D.OptAxiom(x.evalBool(env, c.E, c))
 		}
 	}
 	// global invariants: assumed unless we are verifying the package initialiser that establishes them
@@ -1705,7 +1718,9 @@ func (x *Exec) assumeBackground(st *State) {
 		}
 		for _, c := range cf.GlobalInv {
 			env := &Env{x: x, st: st, old: st, vars: map[string]Value{}, cf: cf}
-			st.Assume(x.evalBool(env, c.E, c))
+			g := x.evalBool(env, c.E, c)
+			x.D.giSet[g] = true
+			st.Assume(g)
 		}
 	}
 }
